@@ -26,7 +26,7 @@ func allowedDeniedGlobal(g *ssa.Global) bool {
 	// globals of packages whose init is skipped: their zero value is an acceptable
 	// model except for the packages listed here, where a read makes the path inconclusive
 	switch g.Pkg.Pkg.Path() {
-	case "os", "reflect", "net", "time", "crypto/rand", "math/rand", "testing", "flag", "net/http", "regexp", "encoding/json":
+	case "os", "reflect", "net", "time", "math/rand", "testing", "flag", "net/http", "regexp", "encoding/json":
 		return false
 	}
 	return true
@@ -398,6 +398,31 @@ func init() {
 	})
 	reg("internal/abi.NoEscape", func(w *W, fr *frame, a []Value) Value { return a[0] })
 	reg("internal/abi.Escape", func(w *W, fr *frame, a []Value) Value { return a[0] })
+
+	// ---- sort.Slice (reflection-based swapper in the real implementation) ----
+	sortSlice := func(w *W, fr *frame, a []Value) Value {
+		it := a[0].iface()
+		if it == nil || it.v.k != KSlice {
+			w.unsupported("sort.Slice on non-slice")
+		}
+		s := it.v.slice()
+		less := a[1]
+		// stable insertion sort; `less` reads the live slice, so swap in place
+		for i := 1; i < len(s); i++ {
+			for j := i; j > 0; j-- {
+				r := w.callValue(fr, less, []Value{mkInt(64, uint64(j)), mkInt(64, uint64(j-1))})
+				if !w.concreteBool(r) {
+					break
+				}
+				x, y := copyVal(s[j]), copyVal(s[j-1])
+				w.assign(&s[j], y)
+				w.assign(&s[j-1], x)
+			}
+		}
+		return Value{}
+	}
+	reg("sort.Slice", sortSlice)
+	reg("sort.SliceStable", sortSlice)
 
 	// ---- errors ----
 	reg("errors.init", func(w *W, fr *frame, a []Value) Value {
